@@ -37,14 +37,37 @@ def sh(cmd, cwd, timeout=5400, env=None):
         return 124, "timeout", round(time.time() - t, 1)
 
 
+VALUE_OPTS = {"-p", "--package", "--test", "--bin", "--example", "--features", "-j", "--jobs", "--manifest-path",
+              "--profile", "--bench", "--target", "--test-threads", "--exclude", "-E"}
+
+
 def cargo_part(cmd):
     """the `cargo …` invocation inside a free-form command description"""
-    m = re.search(r"(cargo\s+(?:\+\S+\s+)?(?:test|run|nextest|check|build)\b[^()&;|\n]*)", cmd)
+    m = re.search(r"(cargo\s+(?:\+\S+\s+)?(?:test|run|nextest run|nextest|check|build)\b[^()&;|\n]*)", cmd)
     if not m:
         return ""
-    c = m.group(1).strip()
-    c = re.sub(r"\s+(fails|passes|must|→|->).*$", "", c)
-    return c
+    toks = m.group(1).split()
+    keep = []
+    i = 0
+    # cargo [+tc] subcommand [run]
+    while i < len(toks) and (toks[i] in ("cargo", "test", "run", "nextest", "check", "build") or toks[i].startswith("+")):
+        keep.append(toks[i]); i += 1
+    after_dd = False
+    while i < len(toks):
+        t = toks[i]
+        prev = keep[-1] if keep else ""
+        if t == "--":
+            after_dd = True; keep.append(t)
+        elif t.startswith("-") or prev in VALUE_OPTS:
+            keep.append(t)
+        elif re.fullmatch(r"[A-Za-z0-9_:]+", t) and ("::" in t or "_" in t) and not after_dd:
+            keep.append(t)          # a test-name filter
+        elif after_dd and re.fullmatch(r"[A-Za-z0-9_:]+", t) and ("::" in t or "_" in t):
+            keep.append(t)
+        else:
+            break
+        i += 1
+    return " ".join(keep)
 
 
 def harness_of(pid):
